@@ -449,11 +449,17 @@ func rC14Branches(w *World, r *Report) {
 		for _, s := range doneSends(target) {
 			if ld, ok := s.X.(*ssa.UnOp); ok {
 				if a, ok := ld.X.(*ssa.Alloc); ok {
+					stored := false
 					eachInstr(target, func(i2 ssa.Instruction) {
 						if base, f, v, ok := storeField(i2); ok && base == ssa.Value(a) && f.Name() == "Error" {
 							errVal = v
+							stored = true
 						}
 					})
+					if !stored {
+						// the literal leaves the field out: it holds the zero value, a nil error
+						errVal = ssa.NewConst(nil, types.Universe.Lookup("error").Type())
+					}
 				}
 			}
 		}
